@@ -363,7 +363,7 @@ def cases(draw, tier="quick"):
     if te_min is None or te_min > hi:
         y_nan, nan_cells = [], set()
         te_min = y_days[3]
-    te_min = math.ceil(max(te_min, x_days[7]))
+    te_min = math.ceil(max(te_min, x_days[min(7, len(x_days) - 1)]))     # (short feature tables: the last row)
     transformer_end = None
     if draw(st.booleans()):
         transformer_end = draw(st.integers(te_min, max(te_min, math.floor(y_days[-1]))))
